@@ -71,7 +71,7 @@ pub struct ARes {
 }
 
 struct Buf {
-    b: [u8; 512],
+    b: [u8; 1024],
     n: usize,
 }
 impl core::fmt::Write for Buf {
@@ -86,7 +86,7 @@ impl core::fmt::Write for Buf {
     }
 }
 fn fixed(f: impl FnOnce(&mut Buf) -> core::fmt::Result) -> String {
-    let mut b = Buf { b: [0; 512], n: 0 };
+    let mut b = Buf { b: [0; 1024], n: 0 };
     match f(&mut b) {
         Ok(()) => String::from_utf8_lossy(&b.b[..b.n]).to_string(),
         Err(_) => "<fmt error>".to_string(),
@@ -105,7 +105,7 @@ fn day(d: &PDay) -> Result<RuleDay, tz::TzError> {
 }
 
 fn dt(d: &DateTime) -> String {
-    fixed(|b| write!(b, "{d}|{}|{}|{}|{}|{}|{:?}|{:>44}|{:.10}|{:*^50}", d.unix_time(), d.nanoseconds(), d.week_day(), d.year_day(), d.total_nanoseconds(), d.local_time_type(), d, d, d))
+    fixed(|b| write!(b, "{d}|{}|{}|{}|{}|{}|{:?}|{:>44}|{:.10}|{:*^50}|{:*^51}|{:<3}|{:#^47.12}", d.unix_time(), d.nanoseconds(), d.week_day(), d.year_day(), d.total_nanoseconds(), d.local_time_type(), d, d, d, d, d, d))
 }
 
 fn kind(k: &Option<FoundDateTimeKind>) -> String {
